@@ -179,7 +179,7 @@ def run(ctx):
     def modelled(c):
         if not flags.get("arnoldi_padding", True) and c["m"] > c["n"]:
             return False
-        if any(G.overrun_columns(c)):      # steps taken after a column's breakdown work on rounding noise: not comparable entry-wise
+        if any(G.overrun_columns(c)[0]):      # steps taken after a column's breakdown work on rounding noise: not comparable entry-wise
             return False
         return True
     good = [o.get("ok") and st["same_steps"] and st["dev_x"] <= 1e-12 and modelled(c) for c, o, st in zip(cases, obs, stab)]
